@@ -78,6 +78,8 @@ fn remove_old_files(dest: &Path, modified: &HashSet<PathBuf>) -> Result<()> {
                 .unwrap_or(false)
         });
     for e in to_delete {
+        #[cfg(libninja_verif)]
+        verif_crash_before_remove();
         fs::remove_file(&e)?;
         eprintln!("{}: Remove unused file.", e.display());
     }
@@ -108,4 +110,19 @@ fn write_with_content(
         content = code;
     }
     hir::write_file(path, &content)
+}
+
+/// Verification hook (only with `--cfg libninja_verif`): when `LIBNINJA_VERIF_CRASH_AT_REMOVE=<j>` is set, the
+/// process aborts just before its (j+1)-th stale-file removal.
+#[cfg(libninja_verif)]
+fn verif_crash_before_remove() {
+    use std::sync::atomic::{AtomicUsize, Ordering};
+    static REMOVES: AtomicUsize = AtomicUsize::new(0);
+    if let Ok(j) = std::env::var("LIBNINJA_VERIF_CRASH_AT_REMOVE") {
+        if let Ok(j) = j.parse::<usize>() {
+            if REMOVES.fetch_add(1, Ordering::SeqCst) == j {
+                std::process::abort();
+            }
+        }
+    }
 }
